@@ -55,20 +55,8 @@ def main(argv=None):
             print(f"replay: {'reproduced' if hit else 'not reproduced'} rule={rp.get('rule')} construct={rp.get('construct')}")
             code = 1 if hit else 0
     except AnalysisError as e:
-        # a definite violation recorded before the analysis had to give up elsewhere stays the verdict: a rule reports only a
-        # recognised, definite mismatch, and "cannot decide" about another clause does not take that back
-        r_ = locals().get("res")
-        done = False
-        if r_ is not None and getattr(r_, "violations", None):
-            try:
-                print(f"ANALYSIS-INCOMPLETE property={pid}: {e}")
-                code = r_.finish()
-                done = code == 1
-            except AnalysisError:
-                done = False
-        if not done:
-            print(f"ANALYSIS-ERROR property={pid}: {e}")
-            code = 2
+        print(f"ANALYSIS-ERROR property={pid}: {e}")
+        code = 2
     except Exception:
         traceback.print_exc()
         print(f"ANALYSIS-ERROR property={pid}: internal error in the analyser (see traceback)")
